@@ -153,7 +153,7 @@ export async function run(ctx) {
       if (f) ctx.violation({ signature: `${f.clause}|${f.cause}|probe:${p.id}`, clause: f.clause, detail: `${p.text}\n${f.detail}`.slice(0, 2000), replay: { kind: "describe", text, parser: "X", value: null, hasValue: false } });
     }
   }
-  const nProgs = ctx.share(1600, 40000);
+  const nProgs = ctx.share(8000, 40000);
   let sampled = 0;
   for await (const item of corpus(ctx, { label: "C15", count: nProgs, features: FEATURES })) {
     const { prog, parsers } = item;
